@@ -139,9 +139,19 @@ func VerifC03History() {
 	vNEvents = 1
 	vStates[0] = int32(configapi.TransactionStatus_APPLIED)
 	h := verifrt.Param("sets")
-	for s := 1; s <= h; s++ {
+	for s := 1; s <= h+1; s++ {
 		// the operation shape is case-split (paths stay concrete); written values are symbolic
-		op := verifrt.Fork("op"+"0123456789"[s:s+1], cfgstore.VNP+cfgstore.VLeaves)
+		var op int
+		if s <= h {
+			op = verifrt.Fork("op"+"0123456789"[s:s+1], cfgstore.VNP+cfgstore.VLeaves)
+		} else {
+			// optionally one more Set of a fixed shape (update of leaf 4): whatever the history, a later unrelated
+			// Set re-reads and re-writes the whole stored configuration
+			if !verifrt.NondetBool("trailing-set") {
+				break
+			}
+			op = cfgstore.VNP + 4
+		}
 		node, del := op, true
 		if op >= cfgstore.VNP {
 			node, del = op-cfgstore.VNP, false // update of a leaf
@@ -179,9 +189,11 @@ func VerifC03History() {
 		c03Prop = &configapi.Proposal{ID: proposalstore.NewID("t1", configapi.Index(s)), TargetID: "t1", TransactionIndex: configapi.Index(s),
 			Details: &configapi.Proposal_Change{Change: &configapi.ChangeProposal{Values: stamped}}}
 		c03Prop.TargetType, c03Prop.TargetVersion = "ty", "1"
+		r := proposalctl.NewReconcilerForVerif(nil, nil, &c03PropStore{}, store, nil)
+		// the proposal's real Initialize phase (a status write of the configuration), then its Commit phase
+		c03Initialize(r)
 		c03Prop.Status.PrevIndex = configapi.Index(s - 1)
 		c03Prop.Status.Phases.Commit = &configapi.ProposalCommitPhase{}
-		r := proposalctl.NewReconcilerForVerif(nil, nil, &c03PropStore{}, store, nil)
 		_, rerr := r.Reconcile(controller.NewID(c03Prop.ID))
 		verifrt.Assert(rerr == nil && c03Prop.Status.Phases.Commit.State == configapi.ProposalCommitPhase_COMMITTED, "commit-completes")
 		// reference: a delete removes the addressed node and everything beneath it; an update sets the leaf
@@ -235,6 +247,16 @@ func VerifC03History() {
 			verifrt.Assert(valOK, "get-returns-the-last-written-value")
 		}
 	}
+}
+
+// c03Initialize runs the real reconcileInitialize of c03Prop to completion (status write, then INITIALIZED)
+func c03Initialize(r *proposalctl.Reconciler) {
+	c03Prop.Status.Phases.Initialize = &configapi.ProposalInitializePhase{}
+	for k := 0; k < 2; k++ {
+		_, err := r.Reconcile(controller.NewID(c03Prop.ID))
+		verifrt.Assert(err == nil, "initialize-step-succeeds")
+	}
+	verifrt.Assert(c03Prop.Status.Phases.Initialize.State == configapi.ProposalInitializePhase_INITIALIZED, "initialize-completes")
 }
 
 func verifSamePath(a, b []*gnmi.PathElem) bool {
